@@ -105,7 +105,7 @@ fn run_real(prog: &Prog, n: i64) -> RealRun {
                 RuntimeStatusKind::PendingHostFunc => drive::service_all(&mut rt, &prog.table, &mut host),
                 RuntimeStatusKind::OutOfSteps => {}
             }
-            if r.steps > 5_000_000 {
+            if r.steps > 400_000_000 {
                 return "step-cap".to_string();
             }
         }
